@@ -5,6 +5,7 @@ import (
 	"fmt"
 	"io"
 	"math/big"
+	"os"
 	"os/exec"
 	"strings"
 	"time"
@@ -331,6 +332,8 @@ func (s *Solver) Assert(t *Term) {
 	s.emit(sb.String())
 }
 
+var slowCount int
+
 type Result int
 
 const (
@@ -345,6 +348,22 @@ func (s *Solver) Check() Result {
 	t0 := time.Now()
 	lines := s.roundtrip("(check-sat)\n")
 	s.stats.Time += time.Since(t0)
+	if d := time.Since(t0); d > 3*time.Second {
+		if p := os.Getenv("GOSYM_SLOWLOG"); p != "" {
+			slowCount++
+			var sb strings.Builder
+			for i, sc := range s.live {
+				if i > 0 {
+					sb.WriteString("(push 1)\n")
+				}
+				for _, c := range sc {
+					sb.WriteString(c)
+				}
+			}
+			sb.WriteString("(check-sat)\n")
+			os.WriteFile(fmt.Sprintf("%s.%d.%.0fs.smt2", p, slowCount, d.Seconds()), []byte(sb.String()), 0o644)
+		}
+	}
 	s.stats.Queries++
 	res := Unknown
 	for _, l := range lines {
